@@ -124,12 +124,14 @@ def run_tlc(module, cfg_text, workdir, *, extra_modules=None, workers=16, env=No
     if r.violated is None and not r.deadlock and not r.postcondition_failed:
         if p.returncode not in ok_exit:
             fatal = 'TLC exit %d' % p.returncode
-    for marker in ('Parsing or semantic analysis failed', 'TLC threw an unexpected exception',
-                   'java.lang.OutOfMemoryError', 'Error: TLC encountered', 'was not able to',
-                   'Error: Evaluating', 'Error: The', 'Error: In evaluation', 'Error: Attempted',
-                   'Error: Parsing'):
-        if marker in r.raw:
-            fatal = marker
+    benign = ('is violated', 'The behavior up to this point', 'Deadlock reached', 'Temporal properties were violated',
+              'The following behavior constitutes', 'Stuttering')
+    for ln in r.raw.splitlines():
+        if ln.startswith('Error:') and not any(b in ln for b in benign):
+            fatal = ln.strip()
+            break
+        if 'Parsing or semantic analysis failed' in ln or 'java.lang.OutOfMemoryError' in ln or 'StackOverflowError' in ln:
+            fatal = ln.strip()
             break
     if fatal:
         ls = r.raw.splitlines()
